@@ -529,6 +529,8 @@ class Evaluator:
             for ty, ms in _PURE_METHODS.items():
                 if isinstance(o, ty) and e.attr in ms:
                     return ("pymethod", o, e.attr)
+            if isinstance(o, set) and e.attr == "pop" and len(o) == 1:
+                return ("pymethod", o, e.attr)  # the only element: no dependence on the set's internal order
             raise Undecided("attribute %s of %s" % (e.attr, type(o).__name__))
         if isinstance(e, ast.Call):
             return self._call(e, env, mod, cls)
